@@ -411,7 +411,8 @@ class Mode(LogMixin):
 
         # Clean up the mode handlers and devices
         self._remove_mode_event_handlers()
-        # delays added by control events while the mode was stopping must not outlive the mode
+        # delays and switch handlers added by handlers of the mode while it was stopping must not outlive the mode
+        self._remove_mode_switch_handlers()
         self.delay.clear()
         self._remove_mode_devices()
 
